@@ -394,6 +394,78 @@ void vf_harness(void) { const Map* d; Map_add(d); VF_CANARY(); }
 )
 UNITS += [map_add]
 
+# ---- HashMap::Enumerator: construction and ++ walk every bucket [ASL_HMAP_SKIP, a.length()) - an entry in ANY bucket, the last one included, is visited.
+# The enumerator over the bucket array (Array<KeyValN*>::Enumerator: indices [i, j), ++ is i++, * is a[i], bool is i < j) is written out as its C01 contract.
+enum_unit = Unit(
+    'HashMap_Enumerator', 'C02',
+    cuts=[Cut('skip', HM, r'^#define ASL_HMAP_SKIP ', kind='define', rules=[(r'sizeof\(AtomicCount\)', 'sizeof(int)', 1)]),
+          Cut('init', HM, r'^\t\tEnumerator\(const HashMap& m\)\s*:\s*e\(([^\n]*)\)[^\n]*$', kind='expr',
+              rules=[(r'\(Array<KeyValN\*>&\)', '', None), (r'm\.a\.length\(\)', 'g_alen', None), (r'^\s*m\.a\s*$', '0, g_alen', None), (r'^\s*m\.a\s*,', '', None)]),
+          Cut('ctor', HM, r'^\t\tEnumerator\(const HashMap& m\)\s*:[^\n]*$', rules=[(r'\+\+e;', 'E_NEXT();', None), (r'\*e\b', 'E_GET()', None), (r'&& e\)', '&& E_OK())', None), (r'if\(e\)', 'if (E_OK())', None)]),
+          Cut('next', HM, r'^\t\tvoid operator\+\+\(\)\s*$', nth=0, count=1, rules=[(r'\+\+e;', 'E_NEXT();', None), (r'\*e\b', 'E_GET()', None), (r'&& e\)', '&& E_OK())', None), (r'if\(e\)', 'if (E_OK())', None)])],
+    text=PRE + r'''
+@@skip@@
+typedef struct KeyValN { int key; int value; struct KeyValN* next; } KeyValN;
+#define NB 5                                  /* buckets */
+KeyValN* g_slot[ASL_HMAP_SKIP + NB]; int g_alen, g_ei, g_ej; KeyValN* p; KeyValN g_nodes[NB];
+static void E_INIT(int i, int j) { g_ei = i; g_ej = j; }
+static void E_NEXT(void) { g_ei++; }
+static bool E_OK(void) { return g_ei < g_ej; }
+static KeyValN* E_GET(void) { __CPROVER_assert(0 <= g_ei && g_ei < g_alen, "Array::operator[] index below length (bucket array)"); return g_slot[g_ei]; }
+static void Enumerator_ctor(void) @@ctor@@
+static void Enumerator_next(void) @@next@@
+int nondet_int(void); bool nondet_bool(void);
+void vf_harness(void) {
+  int nb = nondet_int(); __CPROVER_assume(1 <= nb && nb <= NB); g_alen = ASL_HMAP_SKIP + nb;
+  for (int b = 0; b < NB; b++) { g_nodes[b].next = 0; g_slot[ASL_HMAP_SKIP + b] = (b < nb && nondet_bool()) ? &g_nodes[b] : 0; }     /* each bucket: empty or one entry */
+  for (int i = 0; i < ASL_HMAP_SKIP; i++) g_slot[i] = 0;
+  int want = 0; for (int b = 0; b < nb; b++) if (g_slot[ASL_HMAP_SKIP + b]) want++;
+  E_INIT(@@init@@);
+  Enumerator_ctor();
+  int seen = 0, last = -1, ordered = 1;
+  for (int t = 0; t < NB + 1 && (p != 0 || E_OK()); t++) { __CPROVER_assert(p != 0, "operator bool true means an entry is under the cursor"); int b = (int)(p - g_nodes); if (b <= last) ordered = 0; last = b; seen++; Enumerator_next(); }
+  __CPROVER_assert(!(p != 0 || E_OK()), "the enumeration ends");
+  __CPROVER_assert(seen == want && ordered, "every entry of every bucket - the last bucket too - is visited exactly once");
+  VF_CANARY();
+}
+''',
+    entry=None, unwind=12, floor=3, expect=['assertion'], kind='bounded', bound='tables of 1..5 buckets, each empty or holding one entry',
+    desc='HashMap::Enumerator (constructor and ++): every entry of every bucket from the first to the last is visited exactly once; bucket indices in range',
+    functions=['HashMap::Enumerator::Enumerator', 'HashMap::Enumerator::operator++'],
+    trusted=['Array<T>::Enumerator: indices [i, j) (Array.h, written as a stub)'],
+)
+
+# ---- key order for String keys (Dic, Map<String,...>): compare(a, b) must be a total order that separates different strings - a proper prefix is a different, smaller key
+S_CPP = 'src/String.cpp'
+cmp_string = Unit(
+    'Map_compare_String', 'C02',
+    cuts=[Cut('cs', M, r'^inline int compare\(const String& a, const String& b\)\s*', rules=[(r'a\.compare\(b\)', 'vf_String_compare(a, b)', None), (r'\ba\.length\(\)', 'a_len', None), (r'\bb\.length\(\)', 'b_len', None), (r'\ba\.data\(\)', 'a', None), (r'\bb\.data\(\)', 'b', None)])],
+    text=PRE + r'''
+#define NS 4
+int a_len, b_len;
+/* String::compare(const String&) is strcmp on the two texts (String.h / libc) */
+static int vf_strcmp(const char* x, const char* y) { for (int i = 0; i <= NS; i++) { unsigned char c = (unsigned char)x[i], d = (unsigned char)y[i]; if (c != d) return c < d ? -1 : 1; if (c == 0) return 0; } return 0; }
+static int vf_String_compare(const char* x, const char* y) { return vf_strcmp(x, y); }
+static int memcmp(const void* x, const void* y, unsigned long n) { const unsigned char *u = x, *v = y; for (unsigned long i = 0; i < n && i <= NS; i++) if (u[i] != v[i]) return u[i] < v[i] ? -1 : 1; return 0; }
+static int compare(const char* a, const char* b) @@cs@@
+int nondet_int(void); char nondet_char(void);
+void vf_harness(void) {
+  char a[NS + 1], b[NS + 1]; a_len = nondet_int(); b_len = nondet_int(); __CPROVER_assume(0 <= a_len && a_len <= NS && 0 <= b_len && b_len <= NS);
+  for (int i = 0; i <= NS; i++) { a[i] = i < a_len ? nondet_char() : 0; b[i] = i < b_len ? nondet_char() : 0; __CPROVER_assume(i >= a_len || a[i] != 0); __CPROVER_assume(i >= b_len || b[i] != 0); }
+  int same = a_len == b_len; for (int i = 0; i < NS; i++) if (a[i] != b[i]) same = 0;
+  int r = compare(a, b), q = compare(b, a);
+  __CPROVER_assert((r == 0) == (same != 0), "keys compare equal exactly when they are the same string (a proper prefix, or the empty key, is a different key)");
+  __CPROVER_assert((r < 0) == (q > 0) && (r == 0) == (q == 0), "antisymmetric");
+  __CPROVER_assert((r < 0) == (vf_strcmp(a, b) < 0), "the order is the byte-wise lexicographic one (Dic enumerates in ascending key order)");
+  VF_CANARY();
+}
+''',
+    entry=None, unwind=8, floor=3, expect=['assertion'], kind='bounded', bound='keys of 0..4 bytes',
+    desc='compare(const String&, const String&), the key order of Dic / Map<String,...>: equal exactly for identical strings, antisymmetric, byte-wise lexicographic',
+    functions=['compare(const String&, const String&)'], trusted=['String::compare(const String&) = strcmp'],
+)
+UNITS += [enum_unit, cmp_string]
+
 # replay: the units verify single operations on ghost-shaped states (one bucket chain, a sorted array); the native counterpart is the driver's small-scope
 # exhaustive search over operation sequences on colliding keys
 for _u in UNITS:
